@@ -3,7 +3,7 @@
    ExtrOcamlString (ascii -> char, string -> char list).  No Extract Constant of our own. *)
 From Coq Require Import Extraction ExtrOcamlBasic ExtrOcamlString.
 From Ucg Require Import base.Bytes data.Val prec.Climb env.Collector env.Out data.Json data.MapJson data.B64 path.Path sem.Ast sem.Sem sem.FloatInst shell.Shell lex.Lex_Types lex.Vocab lex.Lex vm.Ops vm.Translate vm.Vm vm.Compile_Rel vm.Compile_Correct.
-From Ucg Require Import env.Import env.Batch.
+From Ucg Require Import env.Import env.Batch lsp.Docs.
 From UcgGen Require Import PrecTable DocPrecTable.
 
 Extraction Language OCaml.
@@ -40,3 +40,9 @@ Extraction "model.ml" climb_code spec_doc dec_of_Z
 Definition batch_current := batch LockPerEvaluation.
 Definition batch_legacy := batch LockPerInvocation.
 Extraction "model_batch.ml" batch_current batch_legacy exit_status default_fuel evaluations artifacts empty_state.
+
+(* C20: the document store; the "analysis" returns its own input (the workspace view) so that the harness can check that the
+   real diagnostics are a function of it *)
+Definition lsp_run (disk : store) (ms : list msg) : state * list (uri * option store) :=
+  Docs.run (option store) (fun w _ _ => Some w) None disk (Docs.init disk) ms.
+Extraction "model_lsp.ml" lsp_run.
